@@ -593,8 +593,14 @@ func TestC20(t *testing.T) {
 			}
 			// the same pair through the production entry point (fresh parser + VM, vm.LoadAndRun, the
 			// parser's diagnostic printer; stdout and stderr compared)
-			if abE, _ := seqRunEntry(pool, []string{a, b}); abE != nil {
-				if aloneE, _ := seqRunEntry(pool, []string{b}); aloneE != nil {
+			// each history in a process of its own: "B run first" must really be the first program of its process
+			freshAB, freshB := &sb.Pool{}, &sb.Pool{}
+			abE, _ := seqRunEntry(freshAB, []string{a, b})
+			freshAB.Close()
+			aloneE, _ := seqRunEntry(freshB, []string{b})
+			freshB.Close()
+			if abE != nil {
+				if aloneE != nil {
 					rec.EvalN(3)
 					if normOut(abE[1]) != normOut(aloneE[0]) {
 						rec.Fail(fmt.Sprintf("cell:residue-entry:A%d->B%d", ai, bi), fmt.Sprintf("through vm.LoadAndRun on fresh VMs, program B%d gives %q after A%d ran earlier in the process, but %q when run first\nA:\n%s\nB:\n%s", bi, clip(abE[1], 400), ai, clip(aloneE[0], 400), a, b), c20Case{Kind: "residue-entry", A: a, Src: b})
